@@ -89,6 +89,8 @@ class _IntMeta(type):
     def __call__(cls, *a, **k):
         from .symcore import SymReal, NotEncodable
         if a and isinstance(a[0], SymReal):
+            if len(a) == 1 and not k:
+                return a[0].__trunc__()       # int(x): truncation toward zero, kept symbolic
             raise NotEncodable("int() of a symbolic value")
         return builtins.int(*a, **k)
 
